@@ -181,6 +181,32 @@ def validate_multiset(machine, rec):
         what = ("user %s on %s" % (d["kind"], "the problem" if owner == "pep" else
                                     ("a leaf function" if machine.regs[owner].get_is_leaf() else "a composite function")))
         take(d["obj"], n, what, d.get("sense"))
+    # an LMI is what was written when it was declared, whatever the caller does with its own array afterwards
+    idx2 = canon.Index()
+    info_lmis_decl = [0]
+    for d in machine.declared:
+        if d["kind"] == "lmi" and d.get("rows_decl") is not None:
+            o = d["obj"]
+            rows_decl = d["rows_decl"]
+            info_lmis_decl[0] += 1
+            if tuple(o.shape) != (len(rows_decl), len(rows_decl[0])):
+                F("declared_lmi_changed_after_declaration", "LMI declared with shape (%d,%d) holds shape %r at solve time"
+                  % (len(rows_decl), len(rows_decl[0]), tuple(o.shape)))
+                continue
+            for i_ in range(o.shape[0]):
+                for j_ in range(o.shape[1]):
+                    want = rows_decl[i_][j_]
+                    A1, a1, c1 = canon.expr_num(o[i_, j_], idx2)
+                    if isinstance(want, (int, float)):
+                        A2, a2, c2 = 0 * A1, 0 * a1, float(want)
+                    else:
+                        A2, a2, c2 = canon.expr_num(want, idx2)
+                    dd = max(float(np.max(np.abs(A1 - A2), initial=0.0)), float(np.max(np.abs(a1 - a2), initial=0.0)), abs(c1 - c2))
+                    if dd > 1e-12 * (1.0 + abs(c2) + float(np.max(np.abs(A2), initial=0.0)) + float(np.max(np.abs(a2), initial=0.0))):
+                        F("declared_lmi_changed_after_declaration",
+                          "entry (%d,%d) of a declared LMI denotes something else at solve time than when it was declared (differs by %.3e)"
+                          % (i_, j_, dd))
+                        break
     # step side-constraints and any other function-level constraint/LMI (declared through the library itself)
     for f in Function.list_of_functions:
         for c in f.list_of_constraints:
